@@ -55,8 +55,8 @@ def _agg_multi():
 OPS = OrderedDict()
 
 
-def O(name, arity, fn, presort=None, kind='view', lexical=False, pad=None):
-    OPS[name] = {'arity': arity, 'fn': fn, 'presort': presort, 'kind': kind, 'lexical': lexical, 'pad': pad}
+def O(name, arity, fn, presort=None, kind='view', lexical=False, pad=None, marker=None):
+    OPS[name] = {'arity': arity, 'fn': fn, 'presort': presort, 'kind': kind, 'lexical': lexical, 'pad': pad, 'marker': marker}
 
 
 for _j in ('join', 'leftjoin', 'rightjoin', 'outerjoin', 'antijoin', 'lookupjoin'):
@@ -74,6 +74,29 @@ O('duplicates', 1, lambda s, **kw: petl.duplicates(s[0], 'k', **kw), presort=['k
 O('duplicates-nokey', 1, lambda s, **kw: petl.duplicates(s[0], **kw), presort=[None])
 O('unique', 1, lambda s, **kw: petl.unique(s[0], 'k', **kw), presort=['k'])
 O('conflicts', 1, lambda s, **kw: petl.conflicts(s[0], 'k', **kw), presort=['k'])
+
+
+def _marker(table, value):
+    # the caller's marker object is the very object that sits in the table's cells (NA = 'n/a'; rows built with NA; missing=NA);
+    # rows that travel through chunk files come back as equal but different objects
+    for row in list(getattr(table, 'rows', table))[1:]:
+        for cell in row:
+            if type(cell) is type(value) and cell == value:
+                return cell
+    return value
+
+
+O('conflicts-missing-marker', 1, lambda s, **kw: petl.conflicts(s[0], 'k', missing=_marker(s[0], 'n/a'), exclude='id', **kw), presort=['k'], marker='n/a')
+O('conflicts-missing-number', 1, lambda s, **kw: petl.conflicts(s[0], 'k', missing=_marker(s[0], -999.5), include='v', **kw), presort=['k'], marker=-999.5)
+# key and value given by position, not by name
+O('fold-by-index', 1, lambda s, **kw: petl.fold(s[0], 1, lambda a, b: '%s+%s' % (a, b), value=2, **kw), presort=['v'])
+O('fold-by-index-key-after-value', 1, lambda s, **kw: petl.fold(s[0], 1, lambda a, b: '%s+%s' % (a, b), value=0, **kw), presort=['v'])
+O('aggregate-by-index', 1, lambda s, **kw: petl.aggregate(s[0], 1, list, 2, **kw), presort=['v'])
+O('aggregate-multi-by-index', 1, lambda s, **kw: petl.aggregate(s[0], (1, 0), OrderedDict([('n', len), ('ids', (2, list))]), **kw), presort=[('v', 'k')])
+O('rowreduce-by-index', 1, lambda s, **kw: petl.rowreduce(s[0], 1, lambda k, rows: [k, [r[2] for r in rows]], header=['v', 'ids'], **kw), presort=['v'])
+O('groupselectmin-by-index', 1, lambda s, **kw: petl.groupselectmin(s[0], 1, 2, **kw), presort=['v'])
+O('unique-by-index', 1, lambda s, **kw: petl.unique(s[0], (1, 0), **kw), presort=[('v', 'k')])
+O('join-by-index', 2, lambda s, **kw: petl.join(s[0], s[1], key=0, **kw), presort=['k', 'k'])
 O('distinct', 1, lambda s, **kw: petl.distinct(s[0], **kw), presort=[None])
 O('distinct-key-count', 1, lambda s, **kw: petl.distinct(s[0], 'k', count='n', **kw), presort=['k'])
 O('rowreduce', 1, lambda s, **kw: petl.rowreduce(s[0], 'k', lambda k, rows: [k, [r[2] for r in rows]], header=['k', 'ids'], **kw), presort=['k'])
@@ -116,6 +139,9 @@ def _tables(rng, op):
     def t(hdr, n, tag):
         return [list(hdr)] + [[rng.choice(kp), rng.choice(vp), '%s%d' % (tag, i)] for i in range(n)]
     spec = OPS[op]
+    if spec['marker'] is not None:
+        vp = ['x', spec['marker'], spec['marker'], 2]
+        kp = kp[:2]
     if spec['arity'] == 1:
         return [t(['k', 'v', 'id'], rng.choice([0, 1, 2, 3, 4, 5, 6]), 'r')]
     if spec['lexical']:
